@@ -404,6 +404,54 @@ def symlink_case(item):
     return res
 
 
+def nested_base_case(item):
+    """The project base (the directory that holds .redo) is a sub-directory and the rule lives above it (a nested project built by
+    the outer tree's default rule): the build finds the rule, redo-whichdo lists it - from the shell and from inside a script."""
+    _, name, seed = item
+    pj = scen.Project({}, 'c13n')
+    top = os.path.realpath(pj.top)
+    anoms = []
+    obs = dict(commands=0)
+    try:
+        os.makedirs(os.path.join(top, 'proj'))
+        cwd = posixpath.join(top, 'proj')
+        abs_t = posixpath.join(cwd, name)
+        cands = ref_candidates(abs_t)
+        above = [c for c in cands if posixpath.dirname(c[0]) == top and posixpath.basename(c[0]).startswith('default')]
+        rule = above[seed % len(above)]
+        common.write_file(rule[0], SCRIPT % 'outer-rule')
+        r1, _ = pj.run(['redo-ifchange', name], cwd=cwd, verif_log=False)
+        obs['commands'] += 1
+        body = (common.read_file(abs_t) or b'').decode('utf-8', 'replace')
+        kv = dict(l.split('=', 1) for l in body.split('\n') if '=' in l)
+        if r1.rc != 0 or kv.get('ID') != 'outer-rule':
+            return dict(verdict='inconclusive', why='the outer rule did not build the nested target: %s' % r1.err[-200:], sample=dict(item=list(item)))
+        want = []
+        for c in cands:
+            want.append(c[0])
+            if os.path.exists(c[0]):
+                break
+        r2, _ = pj.run(['redo-whichdo', name], cwd=cwd, verif_log=False)
+        got = [posixpath.normpath(posixpath.join(cwd, l)) for l in r2.out.split('\n') if l]
+        common.write_file(posixpath.join(cwd, 'ask.do'), 'redo-whichdo "%s" > "$3" || true\n' % name.replace('"', '\\"'))
+        r3, _ = pj.run(['redo', 'ask'], cwd=cwd, verif_log=False)
+        obs['commands'] += 2
+        got3 = [posixpath.normpath(posixpath.join(cwd, l)) for l in (common.read_file(posixpath.join(cwd, 'ask')) or b'').decode('utf-8', 'replace').split('\n') if l]
+        for what, g in (('from-the-shell', got), ('inside-a-script', got3)):
+            if g != want:
+                anoms.append(dict(key='whichdo-order:rule-above-the-project-base:%s' % what,
+                                  what='redo-whichdo %r %s lists %d candidates ending at %r; the build went through %d ending at %r'
+                                       % (name, what, len(g), g[-1:] and posixpath.relpath(g[-1], top), len(want), posixpath.relpath(want[-1], top))))
+    finally:
+        pj.close()
+    res = dict(verdict='violated' if anoms else 'held', nontrivial=True, shape=common.shash(list(item)),
+               sample=dict(kind='rule-above-the-project-base', name=name), obs=obs, sets=dict(chosen_kinds=['above-base']))
+    if anoms:
+        res['violations'] = anoms
+        res['replay'] = dict(kind='c13nb', item=list(item))
+    return res
+
+
 def direct_case(item):
     """possible_do_files called directly vs the reference, for enumerated names."""
     alphabet, maxlen, depth = item
@@ -463,6 +511,8 @@ def dispatch(item):
         return samecmd_case(item[1:])
     if item[0] == 'symlink':
         return symlink_case(item)
+    if item[0] == 'nestedbase':
+        return nested_base_case(item)
     return cmd_case(item[1:])
 
 
@@ -471,7 +521,7 @@ RULE = ('command level: target paths at depth 0-3 (directory names with a space 
         'spelled in 4-8 ways (./, x/../, //, absolute, from sub-directories); redo-whichdo output and the ID/$1/$2/$3/cwd echoed by the '
         'executed script are compared with an independent reference written from the property text; then one mutation (add a higher-priority '
         'candidate / remove the chosen one / repeat) and the comparison again; fresh projects whose first command runs in proj/sub and asks for '
-        '../other/<name> (rule 0-2 levels above the target, a decoy default.do in proj/sub); targets whose directory is created by the rule itself (mkdir -p) and gets a higher-priority rule afterwards; a target named through a symbolic link to a directory elsewhere (the candidates are those of the real place, for the build and for redo-whichdo alike); two targets handled by one redo process (one command line, or one nested redo-ifchange) where the script of the first target installs a higher-priority default rule or the chosen rule removes itself: each look-up sees the candidates that exist at that moment. Direct level (clean and .././/-spelled paths): possible_do_files() for every basename over '
+        '../other/<name> (rule 0-2 levels above the target, a decoy default.do in proj/sub); targets whose directory is created by the rule itself (mkdir -p) and gets a higher-priority rule afterwards; a project base that is a sub-directory with the rule above it (redo-whichdo from the shell and from inside a script lists what the build went through); a target named through a symbolic link to a directory elsewhere (the candidates are those of the real place, for the build and for redo-whichdo alike); two targets handled by one redo process (one command line, or one nested redo-ifchange) where the script of the first target installs a higher-priority default rule or the chosen rule removes itself: each look-up sees the candidates that exist at that moment. Direct level (clean and .././/-spelled paths): possible_do_files() for every basename over '
         'small alphabets up to a length bound x directory depth vs the same reference. Every case is non-trivial; distinct = parameter tuple.')
 ASSUME = ['ancestors of the scratch root contain no default*.do (checked at start-up)', 'targets whose spelling resolves to an existing directory are not generated']
 
@@ -497,6 +547,8 @@ def main(tier):
         for depth in (1, 2, 3):
             for where in ('specific', 'nearest', 'between'):
                 items.append(('latedir', n, depth, where, rnd.randrange(1000)))
+    for n in (NAMES[:6] if quick else NAMES):
+        items.append(('nestedbase', n, rnd.randrange(1000)))
     for n in (NAMES[:4] if quick else NAMES):
         for where in ('other', 'above'):
             items.append(('symlink', n, where, rnd.randrange(1000)))
@@ -525,7 +577,7 @@ def replay(path):
     d = json.load(open(path))
     common.ensure_built()
     it = d['replay']['item']
-    r = symlink_case(tuple(it)) if d['replay']['kind'] == 'c13sym' else samecmd_case(tuple(it)) if d['replay']['kind'] == 'c13same' else direct_case(tuple(it)) if d['replay']['kind'] == 'direct' else (outside_case(tuple(it)) if d['replay']['kind'] == 'c13out' else (latedir_case(tuple(it)) if d['replay']['kind'] == 'c13late' else cmd_case(tuple(it))))
+    r = nested_base_case(tuple(it)) if d['replay']['kind'] == 'c13nb' else symlink_case(tuple(it)) if d['replay']['kind'] == 'c13sym' else samecmd_case(tuple(it)) if d['replay']['kind'] == 'c13same' else direct_case(tuple(it)) if d['replay']['kind'] == 'direct' else (outside_case(tuple(it)) if d['replay']['kind'] == 'c13out' else (latedir_case(tuple(it)) if d['replay']['kind'] == 'c13late' else cmd_case(tuple(it))))
     print(r.get('verdict'), r.get('violations'))
     common.cleanup_scratch()
     if r.get('verdict') == 'violated':
